@@ -207,6 +207,11 @@ func compareToModelEnv(e *Env, mt *MTable, q *QResult, stage string) *Violation 
 			if pi := q.Field("_points"); pi >= 0 && r.Vals[pi] == 0 && tableHasConstBin(t) {
 				// a period without points reported as a row because a derived
 				// field contains a constant
+				if e != nil && e.Plan.Prop != "C01" {
+					// recorded against C01; not the subject of other properties
+					e.Count("tolerated.gap-row-const")
+					continue
+				}
 				if e != nil && e.Known("C01-gap-row-const") {
 					continue
 				}
